@@ -4,18 +4,14 @@ from cat.common import *
 _TUS = ['src/cppparser/cppManifest.cxx', 'src/cppparser/cppPreprocessor.cxx', 'src/cppparser/cppFile.cxx',
         'src/dtoolutil/filename.cxx', 'src/dtoolutil/dSearchPath.cxx']
 _SKIP = ['cppPreprocessor.cxx']
-# TUs are lowered without inlining so that the cut of the std::string heap path removes every copy of it
-_TUF = ['-fno-inline']
-# std::string never leaves its 15-byte SSO buffer within the bounds below: the heap path is cut, its auto-stub asserts
-# ('model: unmodelled external function ... reached') if a string would ever grow beyond 15 bytes
+# std::string never leaves its 15-byte SSO buffer within the bounds below: the out-of-line heap path is cut, its auto-stub
+# asserts ('model: unmodelled external function ... reached') if a string would ever grow beyond 15 bytes
 _CUT_HEAP_STRINGS = ['_ZNSt7__cxx1112basic_stringIcSt11char_traitsIcESaIcEE9_M_createERmm',
                      '_ZNSt7__cxx1112basic_stringIcSt11char_traitsIcESaIcEE9_M_mutateEmmPKcm']
 
-# vector growth is replaced by harness/c08_fixedvec.h (one typed allocation of VCAP elements; overflow asserts)
+# vector growth is replaced by harness/c08_fixedvec.h (one allocation of VCAP elements; overflow asserts)
 _CUT_VEC_REALLOC = ['_ZNSt6vectorINSt7__cxx1112basic_stringIcSt11char_traitsIcESaIcEEESaIS5_EE17_M_realloc_insertIJS5_EEEvN9__gnu_cxx17__normal_iteratorIPS5_S7_EEDpOT_',
                     '_ZNSt6vectorIN11CPPManifest13ExpansionNodeESaIS1_EE17_M_realloc_insertIJS1_EEEvN9__gnu_cxx17__normal_iteratorIPS1_S3_EEDpOT_']
-# the warning texts ("Not enough arguments for manifest F") are built on concrete data: the libc model loops need room for them
-_MSG_LOOPS = {'ll_strlen.0': 48, 'll_memcpy.0': 48, 'll_memmove.0': 48, 'll_memmove.1': 48}
 
 HARNESSES = [
  {'id': 'c08_stringify',
@@ -49,32 +45,18 @@ HARNESSES = [
   'domain': 'every call text of length 0..AMAX over {( ) , " a space} that starts (after blanks) with ( and has a matching ), literals closed',
   'oracle': 'arguments == reference split at top-level commas only, blanks trimmed, empty arguments kept; position just past the matching )',
   'bounds': {'quick': {'defs': {'AMAX': 5}, 'unwind': 7, 'cap': 600},
-             'thorough': {'defs': {'AMAX': 6}, 'unwind': 8, 'cap': 3000}}},
+             'thorough': {'defs': {'AMAX': 7}, 'unwind': 9, 'cap': 3000}}},
 ]
 
-# Tier B: one macro, definition -> call -> expansion, real code without any cut.  One entry per first body item.
-_ITEMS = ['a', 'b', 'x', '#a', 'a##b', ',']
-for _i, _t in enumerate(_ITEMS):
-    HARNESSES.append({
-  'id': 'c08_expand_%d' % _i,
-  'property': 'C08',
-  'src': 'c08_expand.cxx',
-  'entry': 'harness_c08_expand_items',
-  'tus': _TUS, 'skip_ctors': _SKIP, 'cut': _CUT_VEC_REALLOC,
-  'desc': '#define F(a,b) <body>; F(p,q): CPPManifest ctor + parse_parameters + save_expansion + extract_args + expand/r_expand/stringify '
-          '+ expand_manifests (empty macro table), bodies starting with item "%s"' % _t,
-  'domain': 'every body of 1..KMAX blank-separated items from {a, b, x, #a, a##b, ","} whose first item is "%s" (enumerated concretely: '
-            'no symbolic input, the solver executes each body)' % _t,
-  'oracle': 'the expansion, split into preprocessing tokens, equals the replacement list of C11 6.10.3 item by item',
-  'bounds': {'quick': {'defs': {'KMAX': 1, 'FIRST_ITEM': _i}, 'unwind': 48, 'cap': 600},
-             'thorough': {'defs': {'KMAX': 4, 'FIRST_ITEM': _i}, 'unwind': 48, 'cap': 3000}}})
-
 PROPERTY_INFO = {'C08': {'level': 'model_checking',
-         'explanation': 'bounded symbolic execution (CBMC) of the real CPPManifest code (stringify, extract_args, definition parsing and '
-                        'expansion of one macro) against references written from C11 6.10.3',
-         'outside': 'rescanning and nested expansion, self-reference suppression, multi-line invocations, #undef/push_macro, the lexer-driven '
-                    'path get_identifier -> expand_manifest -> push_expansion; white-space normalisation of arguments before stringification',
-         'assumptions': ['inputs with unterminated string/character literals are excluded from the conformance oracles (undefined behaviour per C11 6.4p3); '
-                         'they are covered for totality under C15']}}
+         'explanation': 'bounded symbolic execution (CBMC) of the real CPPManifest::stringify and CPPManifest::extract_args against references '
+                        'written from C11 6.10.3 / 6.10.3.2 over every short text of a small alphabet',
+         'outside': 'definition -> expansion of a whole macro (constructor + save_expansion + r_expand: the nested hand-written scanners exceed the '
+                    'solver budget on symbolic bodies; their totality on short texts is under C15); rescanning and nested expansion, self-reference '
+                    'suppression, multi-line invocations, #undef/push_macro, the lexer-driven path get_identifier -> expand_manifest -> '
+                    'push_expansion; white-space normalisation of arguments before stringification; the "Not enough / Too many arguments" warnings',
+         'assumptions': ['inputs with unterminated string/character literals are excluded from the conformance oracles (undefined behaviour per '
+                         'C11 6.4p3); they are covered for totality under C15',
+                         'F() is represented as zero arguments (a missing argument expands as empty): token-equivalent to one empty argument']}}
 
 NOT_APPLICABLE = {}
